@@ -150,3 +150,10 @@ def fingerprint(r, clauses):
 def sample(r):
     return dict(route=r['route'], payload_len=len(r['sec']['payload']), has_error=r['entry']['has_error'],
                 data_lines=len(r['entry']['data']), canon=r['entry']['canon'][:120])
+
+
+def corrupt(r):
+    if not r['entry']['present']:
+        return None
+    r['entry']['has_error'] = not r['entry']['has_error']
+    return r
